@@ -1,5 +1,5 @@
 #!/bin/bash
 # sweep_seeded.sh [runs] [pattern]: every seeded defect against the check of its property
 V=$(cd "$(dirname "$0")/.." && pwd)
-RUNS=${1:-3000}; PAT=${2:-}
+RUNS=${1:-0}; PAT=${2:-}
 for d in $V/seeded/*${PAT}*/; do $V/tools/run_seeded.sh $(basename $d) $RUNS --max-report 1 --min-candidates 80; done
